@@ -389,7 +389,10 @@ type lww struct {
 	faults  bool
 	// classSuffix narrows the violation class while a fault-specific check runs; oneClass (long-history) collapses all classes
 	classSuffix string
-	oneClass    string
+	// missedDelete: keys whose acknowledged delete did not reach every replica and that were NOT queried right away
+	// (the query's read repair would bring the replicas back in line): the stale copy stays until something repairs it
+	missedDelete map[mkey]bool
+	oneClass     string
 	notesOnly   bool // long-history: observed answers are notes, the canonical history is the program
 	pending     string
 }
@@ -480,6 +483,7 @@ func (w *lww) apply(k mkey, strategy propertyv1.ApplyRequest_Strategy, tagKeys [
 		mv = &mval{}
 		w.model[k] = mv
 	}
+	delete(w.missedDelete, k) // the key is written again: what follows is judged exactly
 	mv.ver++
 	mv.lastOp = "merge"
 	if strategy == propertyv1.ApplyRequest_STRATEGY_REPLACE {
@@ -576,6 +580,19 @@ func (w *lww) del(name, id string) bool {
 		// first in as few as 1 of 8 iterations): ask often enough, right away, that an order-dependent
 		// answer shows in this run and not in a later operation.
 		w.e.Probe("reach.delete_missed_by_replica")
+		if w.tp.Side().Bool(1, 2) {
+			// do NOT query now: the replica keeps its stale copy while later operations (an apply on top of the deleted
+			// key, another delete, a query much later) run
+			if w.missedDelete == nil {
+				w.missedDelete = map[mkey]bool{}
+			}
+			for _, k := range affected {
+				w.missedDelete[k] = true
+			}
+			w.e.Probe("reach.stale_replica_left_unrepaired")
+			w.hist("#%d (no query after the missed delete: the stale replica is left as it is)", w.opSeq)
+			return true
+		}
 		w.classSuffix = "-after-replica-missed-the-delete"
 		for _, k := range affected {
 			if !w.query(k.name, []string{k.id}, 0, 64) {
@@ -679,7 +696,11 @@ func (w *lww) checkAnswer(name string, ids []string, sorted int, props []*proper
 				if mv == nil {
 					w.fail("lww-map", "never-written-key-returned", "key %s was never written but is returned {%s}", k, renderTags(p.Tags))
 				} else {
-					w.fail("lww-map", "deleted-key-returned", "key %s is deleted but the query returns {%s} (mod_revision %d)", k, renderTags(p.Tags), p.Metadata.GetModRevision())
+					cls := "deleted-key-returned"
+					if w.missedDelete[k] && w.classSuffix == "" {
+						cls += "-after-replica-missed-the-delete" // the delete reached no replica that holds the value (recorded finding)
+					}
+					w.fail("lww-map", cls, "key %s is deleted but the query returns {%s} (mod_revision %d)", k, renderTags(p.Tags), p.Metadata.GetModRevision())
 				}
 				return false
 			}
